@@ -378,7 +378,7 @@ def run_shard(spec) -> Result:
     res = Result()
     r = rng(spec["seed"], "c16", spec["idx"])
     tier = spec["tier"]
-    total = (64 if tier == "quick" else 640) // spec["parts"]
+    total = (64 if tier == "quick" else 320) // spec["parts"]
     workdir = os.path.join(os.path.dirname(os.path.dirname(os.path.dirname(os.path.abspath(__file__)))), ".work", "c16",
                            f"{os.getpid()}-{spec['idx']}")
     os.makedirs(workdir, exist_ok=True)
